@@ -429,6 +429,23 @@ func init() {
 		n := in.asIndex(a[0], types.Typ[types.Int])
 		return in.makeSliceOf(types.Typ[types.Uint8], n, n)
 	})
+	// maps.clone (runtime linkname, no body): shallow copy of the map
+	registerIntrinsic("maps.clone", func(in *Interp, fn *ssa.Function, a []Value) Value {
+		iv, ok := a[0].(*IfaceV)
+		if !ok {
+			in.unsupported("maps.clone of non-interface")
+		}
+		m, ok := iv.V.(*MapObj)
+		if !ok || m == nil {
+			return iv
+		}
+		in.nextObj++
+		c := &MapObj{id: in.nextObj, typ: m.typ}
+		for _, e := range m.entries {
+			c.entries = append(c.entries, &mapEntry{k: e.k, v: e.v, live: e.live})
+		}
+		return &IfaceV{T: iv.T, V: c}
+	})
 	registerIntrinsic("sort.Slice", sortSlice)
 	registerIntrinsic("sort.SliceStable", sortSlice)
 	registerIntrinsic("errors.Is", func(in *Interp, fn *ssa.Function, a []Value) Value {
